@@ -241,6 +241,12 @@ pub struct Effect {
     /// coverage fact: the naming super type sits behind an already visited super type (redundant interface / diamond)
     pub naming_type_behind_visited: bool,
     pub bridge: (String, String, String),
+    /// (intermediary name, intermediary descriptor) of the BRIDGE: the key under which an entry of the bridge's class names it
+    pub bridge_key: (String, String),
+    /// intermediary name of the class whose entry names the bridge (reference walk); None when nothing names it
+    pub named_declaring: Option<String>,
+    /// the invoked method in official names
+    pub delegate: (String, String, String),
 }
 
 /// `cal_stop` / `nam_stop`: see RefRemap::method (both false = reference).
@@ -264,10 +270,12 @@ pub fn effects(sc: &Scenario, cands: &[Candidate], cal_stop: bool, nam_stop: boo
         let full = nam.method(&g_int, &b_class, &b_name, &b_desc, false);
         let named_in_library = full.as_ref().is_some_and(|h| g_int.providers.iter().skip(1).any(|p| p.iter().any(|(c, _)| *c == h.declaring)) && !g_int.providers[0].iter().any(|(c, _)| *c == h.declaring));
         let naming_type_behind_visited = full.as_ref().is_some_and(|h| h.depth >= 1 && g_int.missed_by_early_stop(&b_class, &h.declaring));
+        let named_declaring = full.as_ref().map(|h| h.declaring.clone());
         let named_hit = full.map(|h| (h.depth, h.via_tableless));
         let named = nh.map(|h| h.name).unwrap_or_else(|| b_name.clone());
         let delegate_inherited_name = nam.method(&g_int, &b_class, &s_name, &s_desc, false).filter(|h| h.depth >= 1).map(|h| h.name);
-        out.push(Effect { class: b_class, key: (s_name, s_desc), named, expect: c.expect, named_hit, cal_via_tableless: via, named_in_library, delegate_inherited_name, naming_type_behind_visited, bridge: (c.class.clone(), c.name.clone(), c.desc.clone()) });
+        out.push(Effect { class: b_class, key: (s_name, s_desc), named, expect: c.expect, named_hit, cal_via_tableless: via, named_in_library, delegate_inherited_name, naming_type_behind_visited, bridge: (c.class.clone(), c.name.clone(), c.desc.clone()),
+            bridge_key: (b_name, b_desc), named_declaring, delegate: spec.clone() });
     }
     out
 }
@@ -348,4 +356,101 @@ pub fn compare(e: &Maps, o: &Maps, targets: &BTreeSet<(String, (String, String))
         }
     }
     out
+}
+
+// ------------------------------------------------------------------------------------------------ effects that touch each other (coverage facts)
+
+impl Graph {
+    /// all proper super types (names of this graph), any provider
+    pub fn ancestors(&self, c: &str) -> BTreeSet<String> {
+        let mut out = BTreeSet::new();
+        let mut todo = vec![c.to_string()];
+        while let Some(x) = todo.pop() { if let Some(ss) = self.supers(&x) { for s in ss { if out.insert(s.clone()) { todo.push(s.clone()); } } } }
+        out
+    }
+}
+
+/// COVERAGE ONLY (never judges): how the expected Must effects of one scenario touch each other. A *link* is an ordered
+/// pair (e1, e2): the entry e1 rewrites or creates is keyed like e2's BRIDGE and lies on the walk that names e2's bridge —
+/// in e2's own class (e1's delegate IS e2's bridge: a bridge chain) or in a proper super type of e2's class.
+/// The expectation itself never looks at this: every effect takes its name from the INPUT mappings (`effects`).
+#[derive(Clone, Debug, Default, PartialEq, Eq)]
+pub struct ChainFacts {
+    /// links inside one class (bridge chains of length 2), by class-file order of the two bridges
+    pub b1_before_b2: usize,
+    pub b2_before_b1: usize,
+    /// ... whose two bridges have different named names in the input, by order
+    pub differing_b1_first: usize,
+    pub differing_b2_first: usize,
+    /// ... where the class has no entry for b2 in the input (b1's effect creates the entry that would name b2) / has one
+    pub bridge_entry_created: usize,
+    pub bridge_entry_overwritten: usize,
+    /// e1 -> e2 -> e3 inside one class, three different bridges
+    pub length3: usize,
+    /// e1 -> e2 and e2 -> e1
+    pub cycles: usize,
+    /// e1 rewrites the entry of a proper super type through which e2's bridge is named
+    pub across_named_through_rewritten_entry: usize,
+    /// e1 creates, in a proper super type, an entry keyed like e2's bridge, which nothing names in the input
+    pub across_unnamed_bridge_entry_created_above: usize,
+    /// two bridges of different classes with equal official name + descriptor, their delegates too
+    pub shared_official_names: usize,
+    /// ... that also have equal intermediary keys but different named names
+    pub shared_intermediary_keys_differing_names: usize,
+}
+impl ChainFacts {
+    pub fn any_link(&self) -> bool { self.b1_before_b2 + self.b2_before_b1 + self.across_named_through_rewritten_entry + self.across_unnamed_bridge_entry_created_above > 0 }
+}
+
+pub fn chain_facts(sc: &Scenario, effs: &[Effect]) -> ChainFacts {
+    let mut f = ChainFacts::default();
+    let must: Vec<&Effect> = effs.iter().filter(|e| e.expect == Expect::Must && sc.mappings.classes.contains_key(&e.class)).collect();
+    if must.len() < 2 { return f; }
+    let pos = |b: &(String, String, String)| -> usize { sc.main.classes.iter().find(|c| c.name == b.0).and_then(|c| c.methods.iter().position(|m| m.name == b.1 && m.desc == b.2)).expect("harness: bridge of an effect is not in the jar") };
+    let mut same: Vec<(usize, usize)> = vec![];
+    let mut g_int: Option<Graph> = None;
+    for (i, e1) in must.iter().enumerate() {
+        for (j, e2) in must.iter().enumerate() {
+            if i == j || e1.key != e2.bridge_key { continue; }
+            if e1.class == e2.class {
+                same.push((i, j));
+                let first = pos(&e1.bridge) < pos(&e2.bridge);
+                if first { f.b1_before_b2 += 1; } else { f.b2_before_b1 += 1; }
+                if e1.named != e2.named { if first { f.differing_b1_first += 1; } else { f.differing_b2_first += 1; } }
+                if sc.mappings.classes[&e1.class].methods.contains_key(&e2.bridge_key) { f.bridge_entry_overwritten += 1; } else { f.bridge_entry_created += 1; }
+            } else {
+                let g = g_int.get_or_insert_with(|| { let cal = RefRemap::new(&sc.calamus); Graph::from_jars(&sc.main, &sc.libs).map_names(&|c| cal.class(c)) });
+                if !g.ancestors(&e2.class).contains(&e1.class) { continue; }
+                if e2.named_declaring.as_deref() == Some(e1.class.as_str()) { f.across_named_through_rewritten_entry += 1; }
+                else if e2.named_declaring.is_none() && !sc.mappings.classes[&e1.class].methods.contains_key(&e1.key) { f.across_unnamed_bridge_entry_created_above += 1; }
+            }
+        }
+    }
+    for &(i, j) in &same { for &(j2, k) in &same { if j == j2 && k != i { f.length3 += 1; } if j == j2 && k == i && i < j { f.cycles += 1; } } }
+    for (i, e1) in must.iter().enumerate() { for e2 in must.iter().skip(i + 1) {
+        if e1.bridge.0 != e2.bridge.0 && (&e1.bridge.1, &e1.bridge.2) == (&e2.bridge.1, &e2.bridge.2) && (&e1.delegate.1, &e1.delegate.2) == (&e2.delegate.1, &e2.delegate.2) {
+            f.shared_official_names += 1;
+            if e1.bridge_key == e2.bridge_key && e1.named != e2.named { f.shared_intermediary_keys_differing_names += 1; }
+        }
+    } }
+    f
+}
+
+/// COVERAGE ONLY, and the model of the defect class the chain motifs exist for: what an implementation produces that
+/// handles the bridges one after the other (description order, or reversed) and takes each bridge's named name from the
+/// mappings AS UPDATED SO FAR instead of from the given ones. Never used as an expectation; the monitor counts the
+/// scenarios on which it differs from the reference, and the start-up canary checks that it is told apart.
+pub fn stale_read_variant(sc: &Scenario, effs: &[Effect], reverse: bool) -> Maps {
+    let cal = RefRemap::new(&sc.calamus);
+    let g_int = Graph::from_jars(&sc.main, &sc.libs).map_names(&|c| cal.class(c));
+    let mut order: Vec<&Effect> = effs.iter().filter(|e| e.expect == Expect::Must).collect();
+    if reverse { order.reverse(); }
+    let mut cur = sc.mappings.clone();
+    for e in order {
+        let nam = RefRemap::new(&cur);
+        let named = nam.method(&g_int, &e.class, &e.bridge_key.0, &e.bridge_key.1, false).map(|h| h.name).unwrap_or_else(|| e.bridge_key.0.clone());
+        let e2 = Effect { named, ..e.clone() };
+        cur = apply(&cur, &[&e2]);
+    }
+    cur
 }
